@@ -255,7 +255,7 @@ def poison_ops(site, slot=0, iid_base=0):
 def gen_c09_pool(rng, n_ident=5):
     """~n_ident identity tuples x 2-3 checksum values; every image has its own path.  Some identities
     differ from a sibling in exactly one of the seven identity attributes."""
-    base = gen_image(rng, 0, arch=pick(rng, pools.ARCHES + ["src"]), small_identity=True)
+    base = gen_image(rng, 0, arch=pick(rng, pools.ARCHES + ["src", "arm64", "amd64"]), small_identity=True)
     idents = [base]
     while len(idents) < n_ident:
         src = dict(pick(rng, idents))
@@ -267,7 +267,7 @@ def gen_c09_pool(rng, n_ident=5):
         elif attr == "format":
             src["format"] = pick(rng, [f for f in ["iso", "qcow2", "raw.xz"] if f != src["format"]])
         elif attr == "arch":
-            src["arch"] = pick(rng, [a for a in pools.ARCHES + ["src"] if a != src["arch"]])
+            src["arch"] = pick(rng, [a for a in pools.ARCHES + ["src", "arm64", "amd64", "noarch", "i686"] if a != src["arch"]])
         elif attr == "disc_number":
             src["disc_number"] = src["disc_number"] + 1
         elif attr == "unified":
@@ -287,6 +287,11 @@ def gen_c09_pool(rng, n_ident=5):
                 img["checksums"] = dict(c)
                 img["additional_variants"] = list(ident["additional_variants"])
                 img["path"] = "p/img-%d.iso" % len(imgs)
+                # what is NOT part of the identity varies freely between images of one identity
+                if rng.random() < 0.4:
+                    f = pick(rng, ["disc_count", "bootable", "mtime", "size", "volume_id", "implant_md5"])
+                    img[f] = {"disc_count": img["disc_count"] + rng.randint(1, 2), "bootable": not img["bootable"], "mtime": img["mtime"] + 7,
+                              "size": img["size"] + 7, "volume_id": "other vol", "implant_md5": hexstr(rng, 32)}[f]
                 imgs.append(img)
     return imgs
 
